@@ -1,5 +1,5 @@
 SPECIFICATION TraceSpec
-CONSTANTS FailsOn = FALSE
+CONSTANTS FailScope = "none"
 CONSTRAINT Track
 INVARIANTS Conform KnownFacts TypeOK C36_SystemBypass C36_DisbandTerminal C36_Precedence C36_ErrorsOnlyWhenConsulted
 PROPERTIES C36_PathsAgree
